@@ -387,12 +387,14 @@ class KexGroupExchange(KexDH):
         s.send_packet()
 
         packet_type, payload = s.read_packet(2)
-        if packet_type not in [Protocol.MSG_KEXDH_GEX_GROUP, Protocol.MSG_DEBUG]:
-            raise KexDHException('Expected MSG_KEXDH_GEX_REPLY (%d), but got %d instead.' % (Protocol.MSG_KEXDH_GEX_REPLY, packet_type))
 
         # Skip any & all MSG_DEBUG messages.
         while packet_type == Protocol.MSG_DEBUG:
             packet_type, payload = s.read_packet(2)
+
+        # Whatever follows the debug messages must be the group (a refusal such as MSG_DISCONNECT is not to be parsed as one).
+        if packet_type != Protocol.MSG_KEXDH_GEX_GROUP:
+            raise KexDHException('Expected MSG_KEXDH_GEX_REPLY (%d), but got %d instead.' % (Protocol.MSG_KEXDH_GEX_REPLY, packet_type))
 
         try:
             # Parse the modulus (p) and generator (g) values from the server.
